@@ -110,7 +110,9 @@ def main(argv=None):
     tasks = mod.tasks(tier, seed)
     from mc import pairs
 
-    tasks = tasks + pairs.derive(mod, tasks, tier)
+    from mc import faults
+
+    tasks = tasks + pairs.derive(mod, tasks, tier) + faults.derive(mod, tasks, tier)
     if a.only:
         tasks = [t for t in tasks if a.only in t.get("label", t.get("system", ""))]
     tasks.sort(key=lambda t: -t.get("cost", 1))
